@@ -130,10 +130,12 @@ var mysqlTypeAliases = map[string][]string{
 	"float":         {"FLOAT"},
 	"json":          {"JSON"},
 	"enum('a','b')": {"ENUM('a','b')", "enum('a', 'b')"},
+	// labels are string literals: their case belongs to the schema, not to the keyword-case option
+	"enum('Open','InProgress')": {"ENUM('Open','InProgress')", "enum('Open', 'InProgress')"},
 }
 
 var mysqlTypes = []string{"int(11)", "bigint(20)", "tinyint(4)", "tinyint(1)", "smallint(6)", "varchar(64)", "varchar(255)",
-	"char(3)", "text", "longtext", "datetime", "timestamp", "date", "decimal(10,2)", "decimal(12,4)", "decimal(5,3)", "double", "float", "json", "enum('a','b')"}
+	"char(3)", "text", "longtext", "datetime", "timestamp", "date", "decimal(10,2)", "decimal(12,4)", "decimal(5,3)", "double", "float", "json", "enum('a','b')", "enum('Open','InProgress')"}
 
 var pgTypeAliases = map[string][]string{
 	"INT8":        {"BIGINT", "INT8", "INT", "INTEGER"},
